@@ -8,6 +8,7 @@ package storage
 import (
 	"os"
 	"path"
+	"sync"
 	"time"
 
 	log "github.com/sirupsen/logrus"
@@ -28,6 +29,9 @@ type Store struct {
 
 	badgerDir string
 	bundleDir string
+
+	// pushMutex serialises Push, whose query-then-insert/update sequence must not interleave with itself.
+	pushMutex sync.Mutex
 }
 
 // NewStore creates a new Store or opens an existing Store from the given path.
@@ -70,6 +74,9 @@ func (s *Store) Close() error {
 
 // Push a new/received Bundle to the Store.
 func (s *Store) Push(b bpv7.Bundle) error {
+	s.pushMutex.Lock()
+	defer s.pushMutex.Unlock()
+
 	bi := newBundleItem(b, s.bundleDir)
 
 	if biStore, err := s.QueryId(b.ID()); err != nil {
